@@ -3,6 +3,7 @@ import SJ.Proofs.Edit
 import SJ.Proofs.WalkSafe
 import SJ.Proofs.Bridge
 import SJ.Proofs.DeleteDoc
+import SJ.Proofs.EditHistoryDelete
 /-
 C14 — Deletion removes exactly the selected members and all APIs agree after it.
 -/
@@ -131,5 +132,48 @@ theorem C14_delete_then_read (pj : PJ) (p e : Nat) :
         owalkObj pj' { lim := e, off := p + 1 } [] (fuelOf pj') = .ok (toOMems (filterMs pred onlyKeys 0 ms))) :=
   ⟨fun es pred cur t fuel a b c d => arrDeleteElems_readback pj p e es pred cur t fuel a b c d,
    fun ms pred ks cur t fuel a b c d => deleteElems_readback pj p e ms pred ks cur t fuel a b c d⟩
+
+open SJ.EditHistory SJ.WalkLayout in
+/-- **Histories of deletions and replacements.** `DOp` is one call of `Array.DeleteElems` (`deleteArr q pred`: `pred k`
+    answers the k-th callback), `Object.DeleteElems` (`deleteObj q pred onlyKeys`; `fn == nil` is `fun _ _ => true`) or
+    one of the `Set*` calls of C13, each made on the iterator standing on tape position `q`. For every located, tight
+    document and EVERY finite sequence of such calls, each valid in the document as it is when the call is made (the
+    addressed node is an array resp. object resp. a value the `Set*` gate admits): all calls succeed, and the tape then
+    holds exactly `absDOps v ops` — the original document with the selected members removed and the addressed values
+    replaced, in order, survivors at their positions — and is again tight; message and tape size unchanged; the string
+    buffer has grown by exactly the `SetString` arguments. -/
+theorem C14_history (ops : List DOp) (pj : PJ) (v : LVal) (hok : Ok pj v) (ht : Tight v)
+    (hv : ValidSeqDA pj.strings.size pj.tape.size v ops) :
+    ∃ pj', applyDOps pj ops = .ok pj' ∧ Ok pj' (absDOps v ops) ∧ Tight (absDOps v ops) ∧ pj'.msg = pj.msg ∧
+      pj'.tape.size = pj.tape.size ∧ pj'.strings = pj.strings ++ appendedAllD ops :=
+  history_delete_abs ops pj v hok ht hv
+
+open SJ.EditHistory SJ.WalkLayout in
+/-- **… and every reader agrees on the remaining document after any such history**: an iterator standing anywhere on
+    the document in the final tape (`OnNode`), walking with `Advance`/`AdvanceInto`/`NextElementBytes` and the typed
+    accessors, reads back exactly `absDOps v ops` — no survivor skipped, no deleted member resurrected, no gap misread. -/
+theorem C14_history_readback (ops : List DOp) (pj : PJ) (v : LVal) (hok : Ok pj v) (ht : Tight v)
+    (hv : ValidSeqDA pj.strings.size pj.tape.size v ops) :
+    ∃ pj', applyDOps pj ops = .ok pj' ∧
+      (∀ (j : Iter) (fuel : Nat), OnNode pj' (absDOps v ops) j → 2 * (j.lim - j.off) + 2 < fuel →
+        owalkValue pj' j fuel = .ok (toOVal (absDOps v ops))) ∧
+      owalkValue pj' (iterOn pj' v.pos) (fuelOf pj') = .ok (toOVal (absDOps v ops)) := by
+  have hv' := validSeqD_of_abs ops pj v hok hv
+  obtain ⟨pj', h1, h2⟩ := history_delete_readback ops pj v hok ht hv'
+  obtain ⟨pj'', g1, g2⟩ := history_delete_readback_iterOn ops pj v hok ht hv'
+  rw [h1] at g1; cases g1
+  exact ⟨pj', h1, h2, g2⟩
+
+open SJ.EditHistory in
+/-- A deletion the API refuses (the iterator is not on an array resp. object) returns an error and leaves the tape alone. -/
+theorem C14_delete_refused (pj : PJ) (q : Nat) :
+    (∀ pred, tagAt pj q ≠ tagArrayStart → applyDOp pj (.deleteArr q pred) = .error .generic) ∧
+    (∀ pred ks, tagAt pj q ≠ tagObjectStart → applyDOp pj (.deleteObj q pred ks) = .error .generic) :=
+  ⟨fun pred h => applyDOp_deleteArr_refused pj q pred h, fun pred ks h => applyDOp_deleteObj_refused pj q pred ks h⟩
+
+/-- The premises of `C14_history` are satisfiable: `[1,"a",{"k":true}]`, delete the middle element, `SetInt` on a
+    survivor, delete member `k` → `[9,{}]`, read back from the edited tape. -/
+example : SJ.EditHistory.ValidSeqDA SJ.EditHistory.exPJ.strings.size SJ.EditHistory.exPJ.tape.size SJ.EditHistory.exDoc SJ.EditHistory.exDOps :=
+  SJ.EditHistory.exValidDA
 
 end SJ.Properties.C14
